@@ -687,8 +687,10 @@ def a9(chk, repo):
     td = xm.func("to_dataset")
     from ..callgraph import CallGraph
     g = CallGraph(repo)
-    chk.require(f"{xm.name}:decode_coords" in g.edges.get(td.key, ()), "C13-A9", f"{xm.relpath}:to_dataset", "every dataset goes through decode_coords",
-                "to_dataset no longer applies decode_coords: the bookkeeping attribute stays and nothing is promoted", key="coords:applied")
+    if f"{xm.name}:decode_coords" not in g.reachable([td.key]):
+        # whether the datasets of the tree have their coordinates promoted is decided by evaluation (C13-A10)
+        raise AnalysisError(f"{xm.relpath}:to_dataset: decode_coords is not reachable from to_dataset; not decided by the form rule")
+    chk.ok("C13-A9", f"{xm.relpath}:to_dataset", "every dataset goes through decode_coords")
     comps = [n for n in td.own_nodes() if isinstance(n, ast.DictComp) and "variables" in norm(n.generators[0].iter)]
     if not comps:
         raise AnalysisError(f"{xm.relpath}:to_dataset: variables are not converted by a dict comprehension over group.variables")
